@@ -91,7 +91,7 @@ def gen(rng, tier):
     def batch(kd, vals, mk):
         for i in range(0, len(vals), per):
             cmds = ["newini 0"]; obs = [False]
-            grp = [rng.choice([None, b"sec", b"other", b"sec"]) for _ in range(per)]
+            grp = [rng.choice([None, b"sec", b"other", b"sec", b"Sec", b"SEC"]) for _ in range(per)]
             if rng.random() < 0.5:
                 # the file the values are written to exists already and is longer: the same keys with long texts,
                 # saved once before (a second save of the same file must replace it, not overlay it)
